@@ -226,3 +226,361 @@ Qed.
 
 Lemma lstep_mem x t : sim x -> mem (base (lstep x t)) = fst (pstep (mem (base x)) t (ph x t)).
 Proof. intros S. exact (proj1 (step_mem_ph x t S)). Qed.
+
+(* ------------------------------------------------------------------ *)
+(* Layer 0: the phases are well formed (no junk), the fiber states are in the
+   class the phase expects, the deferred-action slots are used only for the
+   user mutex; waiter_count = registered - claimed - transient. *)
+Definition st12 (s : Z) : Prop := s = ST_RUNNING \/ s = ST_READY.
+Definition stw (s : Z) : Prop := s = ST_SAVING \/ s = ST_WAITING \/ s = ST_READY.
+
+Definition cphase_okb (c : cc) (kp : kpos) : bool :=
+  match c, kp with
+  | CNext _ _, KStart => true
+  | CLocked o _ _, KLock 0%nat _ => needs_user o
+  | CIn o _ _, KAcc (ACWrite 2%nat _) => needs_user o
+  | CFlag _ _, KAcc (ACRead 1%nat) => true
+  | CW1 _ _, KAcc (ACWrite 0%nat _) => true
+  | CW2 _ _, KAcc (AWFAdd 2%nat 1 3) => true
+  | CW3 _ _, KWait 2%nat _ => true
+  | CW4 _ _, KLock 0%nat _ => true
+  | CS1 _ _ _, KLock 1%nat _ => true
+  | CB1 _ _ _, KLock 1%nat _ => true
+  | CS2 _ _ _, KAcc (AWFSub 2%nat 1 5) => true
+  | CB2 _ _ _, KAcc (AWXchg 2%nat 0 2) => true
+  | CS3 _ _ _, KAcc (AWFAdd 2%nat 1 5) => true
+  | CS3 _ _ _, KWake 2%nat _ _ _ => true
+  | CS4 _ _ _, KUnlock 1%nat _ => true
+  | CUnl _ _ _, KAcc (ACWrite _ _) => true
+  | CRb _ _ _, KAcc (ACRead 2%nat) => true
+  | CDone _ _ _, KUnlock 0%nat _ => true
+  | CRd _ _, KAcc (AWLoad 2%nat 5) => true
+  | _, _ => false
+  end.
+
+Definition wake_ok (kp : wakepos) (inm : bool) : Prop :=
+  match kp with
+  | KPSpin SPRead => inm = false
+  | KPSpin (SPNext st) => st12 st
+  | _ => True
+  end.
+Definition unlki_ok (ip : unlkipos) (inm : bool) : Prop :=
+  match ip with IPWake _ kp => wake_ok kp inm | IPAdd => True end.
+Definition yield_ok (yp : yieldpos) : Prop :=
+  match yp with
+  | YPNext true st => st12 st
+  | YPMaint q ip => q = UMUTEX /\ unlki_ok ip true
+  | _ => True
+  end.
+Definition wait_ok (wp : waitpos) : Prop :=
+  match wp with WPYield yp => yield_ok yp | _ => True end.
+Definition kpos_ok (kp : kpos) : Prop :=
+  match kp with
+  | KLock _ (LPWait wp) => wait_ok wp
+  | KWait _ wp => wait_ok wp
+  | KUnlock _ (UPWake _ kp) => wake_ok kp false
+  | KUnlock _ (UPYield (SPNext st)) => st12 st
+  | KWake _ _ _ kp => wake_ok kp false
+  | _ => True
+  end.
+Definition phase_ok (p : phase) : Prop :=
+  match p with
+  | PDone => True
+  | PJunk _ => False
+  | PRun c kp => cphase_okb c kp = true /\ kpos_ok kp
+  end.
+
+(* the class of the fiber's own state at each position *)
+Definition ystate (s : Z) (yp : yieldpos) : Prop :=
+  match yp with
+  | YPRead true => st12 s
+  | YPNext true _ => st12 s
+  | YPNext false st => stw s /\ (waitingish st = false -> st12 s)
+  | _ => stw s
+  end.
+Definition wstate (s : Z) (wp : waitpos) : Prop :=
+  match wp with
+  | WPSaving => st12 s
+  | WPYield yp => ystate s yp
+  | _ => stw s
+  end.
+Definition pstate (s : Z) (p : phase) : Prop :=
+  match wait_ctx p with
+  | Some (_, wp) => wstate s wp
+  | None => st12 s
+  end.
+
+Record linv0 (m : kmem) (c : gc) (t : nat) (p : phase) : Prop := {
+  l0_shape : phase_ok p;
+  l0_state : pstate (fstate m t) p;
+  l0_sched : slot_sched m t = false;
+  l0_mpmc : slot_mpmc m t = None;
+  l0_wait : slot_wait m t = None;
+  l0_mutex : forall q, slot_mutex m t = Some q -> q = UMUTEX;
+  l0_claim : match p with
+             | PRun _ (KWake _ cnt wc _) => cnt = myclaim c t /\ wc = myrel c t
+             | _ => True
+             end
+}.
+
+Record Inv0 (x : ist) : Prop := {
+  i0_sim : sim x;
+  i0_loc : forall t, linv0 (mem (base x)) (cg x) t (ph x t);
+  i0_count : word (mem (base x)) COND = g_reg (cg x) - g_claimed (cg x) - g_trans (cg x)
+}.
+
+(* how one step of t may change what the Layer-0 invariant of another thread reads *)
+Definition frame0 (m m' : kmem) : Prop :=
+  (forall u, fstate m' u = fstate m u \/ fstate m' u = ST_READY) /\
+  slot_sched m' = slot_sched m /\ slot_mpmc m' = slot_mpmc m /\ slot_wait m' = slot_wait m /\
+  slot_mutex m' = slot_mutex m /\ word m' = word m.
+
+Lemma frame0_refl m : frame0 m m.
+Proof. repeat split; auto. Qed.
+
+Lemma wake_frame0 m u :
+  frame0 m (wake m u).
+Proof. unfold wake. destruct (blocked m u); repeat split; auto. Qed.
+
+Lemma st12_nw st : st12 st -> waitingish st = false.
+Proof. intros [->| ->]; reflexivity. Qed.
+
+Lemma wake_step0 m t q cnt wc kp inm m' res :
+  wake_step m t q cnt wc kp inm = (m', res) ->
+  (inm = false -> st12 (fstate m t)) -> wake_ok kp inm ->
+  frame0 m m' /\
+  match res with
+  | WCont _ kp' => wake_ok kp' inm
+  | WRet _ => True
+  | WJunk => False
+  end.
+Proof.
+  intros E Hs Hk. destruct kp as [|h|h nx|h nx|h d|h|f|f|sp]; cbn in E.
+  - inversion E; subst. split; [apply frame0_refl|exact I].
+  - destruct (nnext m h).
+    + destruct (0 <? cnt).
+      * inversion E; subst. split; [apply frame0_refl|]. destruct inm; cbn; [left|]; reflexivity.
+      * inversion E; subst. split; [apply frame0_refl|]. unfold wloop. destruct (wc <? cnt); exact I.
+    + inversion E; subst. split; [apply frame0_refl|exact I].
+  - inversion E; subst. split; [repeat split; auto|exact I].
+  - inversion E; subst. split; [apply frame0_refl|exact I].
+  - inversion E; subst. split; [repeat split; auto|exact I].
+  - inversion E; subst. split; [repeat split; auto|exact I].
+  - destruct (fstate m f =? ST_WAITING).
+    + inversion E; subst. split; [apply frame0_refl|exact I].
+    + inversion E; subst. split; [apply wake_frame0|]. unfold wloop. destruct (wc + 1 <? cnt); exact I.
+  - inversion E; subst. split.
+    + unfold wake. destruct (blocked (set_fstate m f ST_READY) f); repeat split; auto;
+        intros u; cbn; unfold upd; destruct (u =? f)%nat; auto.
+    + unfold wloop. destruct (wc + 1 <? cnt); exact I.
+  - destruct sp as [|st].
+    + inversion E; subst. split; [apply frame0_refl|]. cbn in *. apply Hs. exact Hk.
+    + cbn in Hk. rewrite (st12_nw st Hk) in E. inversion E; subst. split; [apply frame0_refl|].
+      unfold wloop. destruct (wc <? cnt); exact I.
+Qed.
+
+(* what a kernel step of thread t (other than an access made for the client) may change *)
+Record frameT (t : nat) (m m' : kmem) : Prop := {
+  fr_state : forall u, u <> t -> fstate m' u = fstate m u \/ fstate m' u = ST_READY;
+  fr_sched : slot_sched m' = slot_sched m;
+  fr_mpmc : slot_mpmc m' = slot_mpmc m;
+  fr_wait : slot_wait m' = slot_wait m;
+  fr_mutex : forall u, u <> t -> slot_mutex m' u = slot_mutex m u;
+  fr_word : word m' COND = word m COND
+}.
+
+Lemma frame0_T t m m' : frame0 m m' -> frameT t m m'.
+Proof.
+  intros (A & B & C & D & E & F). constructor; auto.
+  - intros u _. now rewrite E.
+  - now rewrite F.
+Qed.
+
+Lemma frameT_refl t m : frameT t m m.
+Proof. constructor; auto. Qed.
+
+Lemma frameT_trans t m1 m2 m3 : frameT t m1 m2 -> frameT t m2 m3 -> frameT t m1 m3.
+Proof.
+  intros A B. constructor.
+  - intros u Hu. destruct (fr_state _ _ _ B u Hu) as [E|E]; [rewrite E; apply A; auto|auto].
+  - rewrite (fr_sched _ _ _ B). apply A.
+  - rewrite (fr_mpmc _ _ _ B). apply A.
+  - rewrite (fr_wait _ _ _ B). apply A.
+  - intros u Hu. rewrite (fr_mutex _ _ _ B u Hu). apply A; auto.
+  - rewrite (fr_word _ _ _ B). apply A.
+Qed.
+
+(* t's own state after a wake step: unchanged or READY; its mutex slot unchanged *)
+Lemma frame0_own t m m' : frame0 m m' ->
+  (fstate m' t = fstate m t \/ fstate m' t = ST_READY) /\ slot_mutex m' t = slot_mutex m t.
+Proof. intros (A & B & C & D & E & F). split; [apply A|now rewrite E]. Qed.
+
+Lemma unlki_step0 m t q ip inm m' res :
+  unlki_step m t q ip inm = (m', res) -> q <> COND ->
+  (inm = false -> st12 (fstate m t)) -> unlki_ok ip inm ->
+  frameT t m m' /\
+  (fstate m' t = fstate m t \/ fstate m' t = ST_READY) /\ slot_mutex m' t = slot_mutex m t /\
+  match res with
+  | ICont ip' => unlki_ok ip' inm
+  | IRet _ => True
+  | IJunk => False
+  end.
+Proof.
+  intros E Hq Hs Hk. destruct ip as [|wc kp]; cbn in E.
+  - assert (F : frameT t m (set_word m q (word m q + 1))).
+    { constructor; auto. cbn. unfold COND in *. now rewrite upd_other by auto. }
+    destruct (word m q + 1 =? 1); inversion E; subst; (split; [exact F|repeat split; auto]).
+  - destruct (wake_step m t q 1 wc kp inm) as [m1 r] eqn:W.
+    destruct (wake_step0 _ _ _ _ _ _ _ _ _ W Hs Hk) as [F R].
+    destruct (frame0_own t _ _ F) as [O1 O2].
+    destruct r; inversion E; subst; (split; [apply frame0_T; exact F|repeat split; auto]); try destruct R.
+Qed.
+
+Definition premaint (wp : waitpos) : bool :=
+  match wp with
+  | WPYield (YPRead false) | WPYield (YPNext false _) | WPYield YPSwRead | WPYield YPSwDone
+  | WPYield YPMRead | WPYield YPMFlip => true
+  | WPYield _ => false
+  | _ => true
+  end.
+
+(* the deferred slots after the state flip *)
+Lemma slots_p0 m t m' res :
+  slots_p m t = (m', res) ->
+  slot_sched m t = false -> slot_mpmc m t = None -> slot_wait m t = None ->
+  (forall q, slot_mutex m t = Some q -> q = UMUTEX) ->
+  frameT t m m' /\ fstate m' t = fstate m t /\ slot_mutex m' t = None /\
+  match res with
+  | YCont (YPMaint q IPAdd) => q = UMUTEX /\ slot_mutex m t = Some q
+  | YCont YPAsleep => slot_mutex m t = None
+  | YCont YPResume => slot_mutex m t = None
+  | _ => False
+  end.
+Proof.
+  intros E H1 H2 H3 H4. unfold slots_p in E. rewrite H1, H2, H3 in E.
+  destruct (slot_mutex m t) as [q|] eqn:Eq.
+  - inversion E; subst. split; [|cbn; rewrite upd_same; auto].
+    constructor; auto. intros u Hu. cbn. now rewrite upd_other.
+  - unfold sleep_p in E. destruct (pend m t); inversion E; subst; (split; [constructor; auto|auto]).
+Qed.
+
+Lemma stw_ready s : stw s -> waitingish s = false -> st12 s.
+Proof. intros [->|[->| ->]] H; cbn in H; try discriminate. now right. Qed.
+
+Lemma ystate_ready yp s : ystate s yp -> ystate ST_READY yp.
+Proof.
+  destruct yp as [[|]|[|] st| | | | |q ip| |]; cbn; intros H; try (right; right; reflexivity);
+    try (right; reflexivity).
+  split; [right; right; reflexivity|intros _; right; reflexivity].
+Qed.
+
+Lemma wstate_ready wp s : wstate s wp -> wstate ST_READY wp.
+Proof.
+  destruct wp; cbn; try (intros _; right; right; reflexivity); try (intros _; right; reflexivity).
+  apply ystate_ready.
+Qed.
+
+Lemma pstate_ready p s : pstate s p -> pstate ST_READY p.
+Proof.
+  unfold pstate. destruct (wait_ctx p) as [[q wp]|]; [apply wstate_ready|intros _; right; reflexivity].
+Qed.
+
+Definition ismaint (yp : yieldpos) : bool := match yp with YPMaint _ _ => true | _ => false end.
+
+Ltac fin0 := cbn; repeat split; auto; try discriminate; try tauto; try congruence.
+
+Lemma yield_step0 m t yp m' res :
+  yield_step m t yp = (m', res) ->
+  slot_sched m t = false -> slot_mpmc m t = None -> slot_wait m t = None ->
+  (forall q, slot_mutex m t = Some q -> q = UMUTEX) ->
+  yield_ok yp -> ystate (fstate m t) yp ->
+  frameT t m m' /\
+  (forall q, slot_mutex m' t = Some q -> slot_mutex m t = Some q) /\
+  match res with
+  | YCont yp' => yield_ok yp' /\ ystate (fstate m' t) yp' /\
+                 (ismaint yp' = true -> ismaint yp = true \/ slot_mutex m t <> None)
+  | YRet => st12 (fstate m' t)
+  | YJunk => False
+  end.
+Proof.
+  intros E H1 H2 H3 H4 Hk Hs.
+  destruct yp as [b|b st| | | | |q ip| |]; cbn in E.
+  - inversion E; subst. split; [apply frameT_refl|]. split; [auto|].
+    destruct b; cbn in *; [fin0|]. repeat split; auto; try discriminate.
+    intros W. apply stw_ready; auto.
+  - destruct (waitingish st) eqn:W; inversion E; subst; (split; [apply frameT_refl|]); (split; [auto|]).
+    + destruct b; cbn in *; [|fin0].
+      rewrite (st12_nw _ Hk) in W. discriminate.
+    + destruct b; cbn in *; tauto.
+  - destruct (fstate m t =? ST_RUNNING) eqn:R.
+    + cbn in Hs. apply Z.eqb_eq in R. rewrite R in Hs. destruct Hs as [Q|[Q|Q]]; discriminate Q.
+    + inversion E; subst. split; [apply frameT_refl|]. split; [auto|]. fin0.
+  - inversion E; subst. split; [apply frameT_refl|]. split; [auto|]. fin0.
+  - destruct (fstate m t =? ST_SAVING).
+    + inversion E; subst. split; [apply frameT_refl|]. split; [auto|]. fin0.
+    + destruct (slots_p0 _ _ _ _ E H1 H2 H3 H4) as (F & S1 & S2 & R).
+      split; [exact F|]. split; [intros q Q; rewrite S2 in Q; discriminate|].
+      destruct res as [yp'| |]; try destruct R. rewrite S1.
+      destruct yp' as [?|? ?| | | | |q' ip'| |]; try destruct R; [|fin0|fin0].
+      destruct ip'; [|destruct R]. destruct R as [-> R]. fin0. intros _. right. congruence.
+  - assert (H1' : slot_sched (set_fstate m t ST_WAITING) t = false) by exact H1.
+    destruct (slots_p0 _ _ _ _ E H1' H2 H3 H4) as (F & S1 & S2 & R).
+    split. { eapply frameT_trans; [|exact F]. constructor; auto. intros u Hu. cbn. rewrite upd_other by auto. auto. }
+    split; [intros q Q; rewrite S2 in Q; discriminate|].
+    destruct res as [yp'| |]; try destruct R. rewrite S1. cbn [fstate set_fstate]. rewrite upd_same.
+    assert (W : stw ST_WAITING) by (right; left; reflexivity).
+    destruct yp' as [?|? ?| | | | |q' ip'| |]; try destruct R; [|fin0|fin0].
+    destruct ip'; [|destruct R]. destruct R as [-> R]. fin0. intros _. right. cbn in R. congruence.
+  - cbn in Hk. destruct Hk as [-> Hk]. cbn in Hs.
+    destruct (unlki_step m t UMUTEX ip true) as [m1 r] eqn:U.
+    assert (Hq : UMUTEX <> COND) by discriminate.
+    destruct (unlki_step0 _ _ _ _ _ _ _ U Hq ltac:(discriminate) Hk) as (F & O1 & O2 & R).
+    assert (Hs1 : stw (fstate m1 t)).
+    { destruct O1 as [O1|O1]; rewrite O1; auto. right; right; reflexivity. }
+    destruct r as [ip'|v|]; try destruct R.
+    + inversion E; subst. split; [exact F|]. split; [intros q Q; now rewrite <- O2|]. fin0.
+    + assert (A1 : slot_sched m1 t = false) by (rewrite (fr_sched _ _ _ F); exact H1).
+      assert (A2 : slot_mpmc m1 t = None) by (rewrite (fr_mpmc _ _ _ F); exact H2).
+      assert (A3 : slot_wait m1 t = None) by (rewrite (fr_wait _ _ _ F); exact H3).
+      assert (A4 : forall q, slot_mutex m1 t = Some q -> q = UMUTEX) by (intros q; rewrite O2; apply H4).
+      destruct (slots_p0 _ _ _ _ E A1 A2 A3 A4) as (F2 & S1 & S2 & R2).
+      split; [eapply frameT_trans; eauto|]. split; [intros q Q; rewrite S2 in Q; discriminate|].
+      destruct res as [yp'| |]; try destruct R2. rewrite S1.
+      destruct yp' as [?|? ?| | | | |q' ip'| |]; try destruct R2; [|fin0|fin0].
+      destruct ip'; try destruct R2. fin0.
+  - inversion E; subst. split; [apply frameT_refl|]. split; [auto|]. fin0.
+  - inversion E; subst. split.
+    { constructor; auto. intros u Hu. cbn. rewrite upd_other by auto. auto. }
+    split; [auto|]. cbn. rewrite upd_same. fin0. left; reflexivity.
+Qed.
+
+Definition ismaintw (wp : waitpos) : bool := match wp with WPYield yp => ismaint yp | _ => false end.
+
+Lemma wait_step0 m t q wp m' res :
+  wait_step m t q wp = (m', res) ->
+  slot_sched m t = false -> slot_mpmc m t = None -> slot_wait m t = None ->
+  (forall q, slot_mutex m t = Some q -> q = UMUTEX) ->
+  wait_ok wp -> wstate (fstate m t) wp ->
+  frameT t m m' /\
+  (forall q, slot_mutex m' t = Some q -> slot_mutex m t = Some q) /\
+  match res with
+  | TCont wp' => wait_ok wp' /\ wstate (fstate m' t) wp' /\
+                 (ismaintw wp' = true -> ismaintw wp = true \/ slot_mutex m t <> None)
+  | TRet => st12 (fstate m' t)
+  | TJunk => False
+  end.
+Proof.
+  intros E H1 H2 H3 H4 Hk Hs.
+  assert (SV : stw ST_SAVING) by (left; reflexivity).
+  destruct wp as [| |n|n|p n|yp]; cbn in E.
+  - inversion E; subst. split.
+    { constructor; auto. intros u Hu. cbn. rewrite upd_other by auto. auto. }
+    split; [auto|]. cbn. rewrite upd_same. fin0.
+  - inversion E; subst. split; [constructor; auto|]. split; [auto|]. fin0.
+  - inversion E; subst. split; [constructor; auto|]. split; [auto|]. fin0.
+  - inversion E; subst. split; [constructor; auto|]. split; [auto|]. fin0.
+  - inversion E; subst. split; [constructor; auto|]. split; [auto|]. cbn in *. fin0.
+  - destruct (yield_step m t yp) as [m1 r] eqn:Y.
+    destruct (yield_step0 _ _ _ _ _ Y H1 H2 H3 H4 Hk Hs) as (F & S & R).
+    destruct r; inversion E; subst; (split; [exact F|]); (split; [exact S|]); auto.
+Qed.
